@@ -4,5 +4,5 @@ THEOREMS = [
     "Pt.lower_reshape_accesses_inbounds_C", "Pt.lower_reshape_accesses_inbounds_F",
     "Pt.lower_roll_accesses", "Pt.lower_perm_accesses", "Pt.lower_basic_accesses", "Pt.lower_reshape_accesses",
     "Pt.lower_stack_accesses", "Pt.lower_concat_accesses",
-    "Pt.pad_accesses_inbounds",
+    "Pt.pad_accesses_inbounds", "Pt.einsum_accesses_inbounds",
 ]
